@@ -87,8 +87,13 @@ pub fn split_into_files_opts(ch: &mut Choices, doc: &MOpDoc, forced: &[(String, 
     // files (half of the time) makes import chains deep -> frags -> top, whose "../lib.graphql" specifiers
     // are textually equal but denote different files
     let ordered = ch.flip();
+    // one time in six: fragments alternate between the main file and the libraries, so that several library
+    // files import (different) fragments back from the main file while it is being expanded
+    let back_refs = k >= 2 && ch.chance(1, 6);
     for (i, n) in frag_names.iter().enumerate() {
-        let h = if ch.chance(1, 6) {
+        let h = if back_refs {
+            if i % 2 == 0 { 0 } else { 1 + (i / 2) % k }
+        } else if ch.chance(1, 6) {
             0
         } else if ordered {
             // earlier fragments deeper: main -> sub/lib ("./sub/lib.graphql") -> sub/sub/lib ("./sub/lib.graphql")
